@@ -107,13 +107,18 @@ Lemma flat_map_insert : forall (f : nat -> nat -> bool) S a ins',
 Proof.
   intros f S a ins' H.
   destruct (filter_length_1_split (f a) S H) as (S1 & j0 & S2 & -> & Hj & H1 & H2).
-  rewrite !flat_map_app. cbn [flat_map filter]. rewrite Hj.
+  rewrite !flat_map_app.
   rewrite (flat_map_ext_in' (fun j => filter (fun i => f i j) (a :: ins'))
                             (fun j => filter (fun i => f i j) ins') S1).
   2:{ intros x Hx. cbn [filter]. rewrite (H1 x Hx). reflexivity. }
+  change (flat_map (fun j => filter (fun i => f i j) (a :: ins')) (j0 :: S2))
+    with (filter (fun i => f i j0) (a :: ins') ++ flat_map (fun j => filter (fun i => f i j) (a :: ins')) S2).
+  change (flat_map (fun j => filter (fun i => f i j) ins') (j0 :: S2))
+    with (filter (fun i => f i j0) ins' ++ flat_map (fun j => filter (fun i => f i j) ins') S2).
   rewrite (flat_map_ext_in' (fun j => filter (fun i => f i j) (a :: ins'))
                             (fun j => filter (fun i => f i j) ins') S2).
   2:{ intros x Hx. cbn [filter]. rewrite (H2 x Hx). reflexivity. }
+  cbn [filter]. rewrite Hj.
   cbn [app]. apply Permutation_middle.
 Qed.
 
@@ -122,9 +127,10 @@ Lemma perm_partition : forall (f : nat -> nat -> bool) S ins,
   Permutation ins (flat_map (fun j => filter (fun i => f i j) ins) S).
 Proof.
   intros f S ins. induction ins as [|a ins IH]; intro H.
-  - cbn [filter]. induction S; cbn [flat_map app]; [constructor | assumption].
-  - eapply Permutation_trans; [|apply flat_map_insert; apply H; left; reflexivity].
-    apply perm_skip. apply IH. intros i Hi. apply H. right. exact Hi.
+  - clear H. cbn [filter]. induction S as [|s0 S IHS]; cbn [flat_map app]; [apply perm_nil | exact IHS].
+  - apply (Permutation_trans (l' := a :: flat_map (fun j => filter (fun i => f i j) ins) S)).
+    + apply perm_skip. apply IH. intros i Hi. apply H. right. exact Hi.
+    + apply flat_map_insert. apply H. left. reflexivity.
 Qed.
 
 Lemma pairwiseb_FOP : forall (f : nat -> nat -> bool) s,
@@ -159,8 +165,8 @@ Proof.
   - intros j Hj. rewrite forallb_forall in Hsub. specialize (Hsub j Hj).
     apply existsb_exists in Hsub. destruct Hsub as (x & Hx & E). apply Nat.eqb_eq in E. subst x. exact Hx.
   - unfold noncoinc_list. apply pairwiseb_FOP in Hpw.
-    apply (FOP_impl _ _ _ (fun a b => _) Hpw).
-    Unshelve. cbn beta. intros a b Hab Hco. apply coincb_iff in Hco. rewrite Hco in Hab. discriminate.
+    apply (FOP_impl (fun a b => negb (coincb data a b) = true)); [|exact Hpw].
+    intros a b Hab Hco. apply coincb_iff in Hco. rewrite Hco in Hab. discriminate.
 Qed.
 
 (* ---------- F24: the shipped code loses the absorbed mass on subdivide ---------- *)
